@@ -13,7 +13,7 @@ def c19_1(R):
     push = [t for t in pw.calls() if call_matches(t, ("Producer::push_slice",))]
     R.require(len(push) == 1, "push_slice in poll_write")
     p = push[0]
-    if trace(pw, p.args[1]).kind == "param" and trace(pw, p.args[1]).root[2] == "buf":
+    if trace(pw, p.args[1]).kind == "param" and trace(pw, p.args[1]).root[1] == 3:  # poll_write(self, cx, buf)
         R.ok("push(buf)", pw.name)
     else:
         R.fail([pw.name, "push_slice-arg", trace(pw, p.args[1]).describe()], "poll_write pushes something other than the caller's buffer", where=p.where(), instance="push(buf)")
@@ -67,7 +67,7 @@ def c19_2(R):
     shape = False
     if t.kind == "call" and call_matches(t.root[1], ("Ord::min",)):
         a, b_ = trace(g, t.root[1].args[0], through_casts=False), trace(g, t.root[1].args[1])
-        if a.kind == "rv" and a.root[1].rv.kind == "bin" and a.root[1].rv.op.startswith("Mul") and a.root[1].rv.ops[1].scalar == 2 and b_.kind == "param" and b_.root[2] == "max_size":
+        if a.kind == "rv" and a.root[1].rv.kind == "bin" and a.root[1].rv.op.startswith("Mul") and a.root[1].rv.ops[1].scalar == 2 and b_.kind == "param" and b_.root[1] == 2:  # grow(self, max_size)
             shape = True
     if shape:
         R.ok("new-cap=min(2cap,max)", g.name, "ub = " + fmt_ub(u))
@@ -77,8 +77,9 @@ def c19_2(R):
     for it, cls in ret_assignments(g):
         if cls == "None":
             for c, truth, d, *_ in controlling(g, it.bb):
-                if c.kind == "bin" and c.op == "Ge" and truth and trace(g, c.b).kind == "param":
-                    okn = True
+                for r_, x_, y_ in implied(c, truth):
+                    if r_ == "le" and trace(g, x_).kind == "param" and trace(g, x_).root[1] == 2:  # max_size <= cap
+                        okn = True
     if okn:
         R.ok("at-max=>None", g.name)
     else:
@@ -89,7 +90,7 @@ def c19_2(R):
     for t_ in pushes:
         v = trace(g, t_.args[1])
         recv = trace(g, t_.args[0])
-        newrb = recv.kind == "call" and recv.root[1] is news[0] or (recv.kind in ("multi", "undef") and g.local_name(recv.root[1]) == "new_rb") or (recv.kind == "call" and is_ring_new(recv.root[1]))
+        newrb = recv.kind == "call" and recv.root[1] is news[0] or (recv.kind == "call" and is_ring_new(recv.root[1]))
         if v.kind == "call" and call_matches(v.root[1], ("Consumer::as_slices",)) and trace(g, v.root[1].args[0]).last_field == "UserTx.consumer" and newrb:
             order.append(([f for f in v.fields if f.startswith("tuple.")] or ["?"])[0])
     seq_ok = order == ["tuple.0", "tuple.1"] and len(pushes) == 2 and pushes[1].bb in g.reachable(pushes[0].bb) and pushes[0].bb != pushes[1].bb
@@ -126,7 +127,7 @@ def c19_2(R):
     for t_ in un.calls():
         if is_ring_new(t_):
             a = trace(un, t_.args[0])
-            if a.kind == "param" and a.root[2] == "capacity":
+            if a.kind == "param" and a.root[1] == 1:  # UserTx::new(capacity)
                 R.ok("initial-capacity", un.name, "RingBuf::new(capacity.get())")
             else:
                 R.fail([un.name, "initial-capacity", a.describe()], "the initial ring is not sized by the configured initial capacity", where=t_.where(), instance="initial-capacity")
